@@ -1,3 +1,5 @@
 import DdsModel.Sha256
 import DdsModel.Sym
 import DdsModel.PyVal
+import DdsModel.Args
+import DdsModel.Sig
